@@ -16,7 +16,7 @@ RULE = ("the C01 population (matrix / random / maximal value trees over matrix s
         "interleaved (so the message carries unknown fields), (c) with empty-but-present optional / oneof / nested "
         "members; for each message: len(m) vs len(bytes(m)), dump(stream) vs bytes(m), dump(stream, SIZE_DELIMITED) vs "
         "spec-varint(len) + bytes(m), SerializeToString vs bytes. (d) measured, then grown through its containers / descendants only (no attribute of the message itself assigned), then measured again; The len contract on Message.__bytes__ also observes "
-        "every nested serialisation. distinct = distinct (schema, type, tree, variant).")
+        "every nested serialisation. A directed shard measures payload lengths at every length-prefix boundary (125..129, 16381..16385 bytes) in string / bytes / packed / nested / map positions and the bundled well-known message classes as top-level messages; a measurement that fails on another object precedes some measurements. distinct = distinct (schema, type, tree, variant).")
 ASSUMPTIONS = [
     "the varint length prefix is computed by the independent spec-level codec",
     "ruff is replaced by an identity stand-in when the plugin formats its output",
